@@ -177,6 +177,22 @@ func checkTokens(c *core.Ctx, root ast.Vertex, src []byte, ver string, errFree b
 			}
 		} else {
 			c.Cover("token_ids", t.Tok.ID.String())
+			// whitespace belongs to free-floating tokens: a significant token neither starts nor ends with a
+			// blank, except the token kinds whose text legitimately does (string/HTML content, heredoc
+			// opener incl. its line end, close tag incl. the line end it swallows)
+			if errFree && len(t.Tok.Value) > 0 {
+				v := t.Tok.Value
+				if isBlank(v[:1]) || isBlank(v[len(v)-1:]) {
+					switch t.Tok.ID {
+					case token.T_INLINE_HTML, token.T_ENCAPSED_AND_WHITESPACE, token.T_START_HEREDOC, token.T_CONSTANT_ENCAPSED_STRING:
+					default:
+						if !(t.Tok.ID == token.ID(';') && bytes.Contains(v, []byte("?>"))) {
+							c.Violation("tok|blank-in-significant-token|"+t.Tok.ID.String()+"|"+fam, fmt.Sprintf("significant token %q (%s) in %s starts or ends with whitespace that should be a free-floating token", v, t.Tok.ID, slot), w)
+							return st
+						}
+					}
+				}
+			}
 		}
 		prevEnd, prev = p.EndPos, t
 	}
